@@ -135,6 +135,15 @@ func smtName(n string) string {
 	return sb.String()
 }
 
+// varName: the SMT name of a variable carries its width, so that harnesses may reuse a
+// nondet name at different types within one solver process.
+func varName(t *Term) string {
+	if t.op == OpVar {
+		return smtName(t.name + "#" + strconv.Itoa(t.w))
+	}
+	return smtName(t.name)
+}
+
 func ref(t *Term) string {
 	switch t.op {
 	case OpConst:
@@ -145,7 +154,7 @@ func ref(t *Term) string {
 		}
 		return "false"
 	case OpVar, OpBVar, OpAVar:
-		return smtName(t.name)
+		return varName(t)
 	}
 	return "t" + strconv.Itoa(t.id)
 }
@@ -203,7 +212,7 @@ func (s *Solver) define(t *Term) {
 		switch x.op {
 		case OpConst, OpBConst:
 		case OpVar, OpBVar, OpAVar:
-			fmt.Fprintf(&sb, "(declare-const %s %s)\n", smtName(x.name), sortOf(x))
+			fmt.Fprintf(&sb, "(declare-const %s %s)\n", varName(x), sortOf(x))
 		default:
 			fmt.Fprintf(&sb, "(define-fun t%d () %s %s)\n", x.id, sortOf(x), body(x))
 		}
